@@ -2,7 +2,7 @@
 (* G mode for C11: documents x signing key x keyring composition x structural  *)
 (* mutations (the every-byte-position mutations come from the harness, which    *)
 (* knows the armored length).                                                  *)
-EXTENDS Deb822Tokens, GenLib
+EXTENDS Deb822Tokens, Deb822, GenLib
 Docs == {Doc(<<1, 4, 6, 5, 9, 11, 2, 4>>, FALSE, TRUE), Doc(<<1, 5>>, FALSE, TRUE), Doc(<<11, 8, 4, 9, 9, 1>>, FALSE, FALSE),
          Doc(<<2, 6, 6, 4, 9, 1, 9, 11>>, TRUE, TRUE)}
 Keyrings == {<<>>, <<"k1">>, <<"k2">>, <<"k1", "k2">>, <<"k2", "k1">>}
@@ -21,5 +21,24 @@ Seqs == {[k |-> "cs_seq", doc |-> d, key |-> "k1", rings |-> rs, mut |-> Mut("no
 Unsigned == {[k |-> "cs", doc |-> d, key |-> "", keyring |-> kr, mut |-> Mut(o)] : d \in Docs, kr \in Keyrings, o \in {"none", "splice_after"}}
 \* keyring = nil cannot be written as a sequence: those vectors omit the field
 NilRing == {[k |-> "cs", doc |-> d, key |-> sk, mut |-> Mut(o)] : d \in Docs, sk \in {"k1", ""}, o \in {"none", "splice_inside", "drop_sig"}}
-ASSUME Emit(SetToSeq(Signed \cup Unsigned) \o SetToSeq(NilRing) \o SetToSeq(EmptyForms) \o SetToSeq(Seqs))
+\* ---- several readers alive in one process -------------------------------------------------------------
+\* reader 1 reads a signed document to its end and is polled `extra` more times; readers 2 (signed, keyring)
+\* and 3 (plain, no keyring) are then open at the same time and read in some interleaving; reader 1 is polled
+\* again before and after.
+DocA == Doc(<<1, 4, 6, 5, 9, 11, 2, 4>>, FALSE, TRUE)  DocB == Doc(<<11, 8, 4, 9, 9, 1>>, FALSE, TRUE)  DocC == Doc(<<2, 6, 6, 4, 9, 1, 9, 11>>, FALSE, TRUE)
+NParas(d) == Len(RefRead(d).paras)
+Open(r, d, ring, isnil) == [op |-> "open", r |-> r, d |-> d, ring |-> ring, nil |-> isnil]
+Nx(r, n) == [i \in 1..n |-> [op |-> "next", r |-> r, d |-> 0, ring |-> <<>>, nil |-> FALSE]]
+RECURSIVE Alternate(_, _)
+Alternate(a, b) == IF a = <<>> THEN b ELSE IF b = <<>> THEN a ELSE <<Head(a), Head(b)>> \o Alternate(Tail(a), Tail(b))
+OpsFor(ds, extra, order, pollBefore) ==
+    LET a == Nx(2, NParas(ds[2]) + 1)  b == Nx(3, NParas(ds[3]) + 1) IN
+    <<Open(1, 1, <<"k1">>, FALSE)>> \o Nx(1, NParas(ds[1]) + 1 + extra)
+    \o <<Open(2, 2, <<"k1">>, FALSE), Open(3, 3, <<>>, TRUE)>>
+    \o (IF pollBefore THEN Nx(1, 1) ELSE <<>>)
+    \o (CASE order = "ab" -> a \o b [] order = "ba" -> b \o a [] order = "alt" -> Alternate(a, b))
+    \o Nx(1, 1)
+ReaderOps == {[k |-> "cs_ops", docs |-> ds, keys |-> <<"k1", "k1", "">>, ops |-> OpsFor(ds, e, o, pb)] :
+                 ds \in {<<DocA, DocB, DocC>>, <<DocC, DocA, DocB>>}, e \in 0..2, o \in {"ab", "ba", "alt"}, pb \in BOOLEAN}
+ASSUME Emit(SetToSeq(Signed \cup Unsigned) \o SetToSeq(NilRing) \o SetToSeq(EmptyForms) \o SetToSeq(Seqs) \o SetToSeq(ReaderOps))
 =============================================================================
